@@ -18,7 +18,7 @@ ToSet(s) == {s[i] : i \in DOMAIN s}
 
 \* ids of the known findings whose deviation actions are enabled (empty = strict)
 AllowIds == IF "ALLOW" \in DOMAIN IOEnv THEN IOEnv.ALLOW ELSE ""
-Allow == {id \in {"KF-C05-notlonger"} : \E i \in 1..(Len(AllowIds) - Len(id) + 1) : SubSeq(AllowIds, i, i + Len(id) - 1) = id}
+Allow == {id \in {"KF-C05-notlonger", "KF-C14-envelope"} : \E i \in 1..(Len(AllowIds) - Len(id) + 1) : SubSeq(AllowIds, i, i + Len(id) - 1) = id}
 
 CfgOf(r) == [peers |-> ToSet(r.cfg.peers), lastN |-> r.cfg.lastN, allow |-> Allow]
 
@@ -76,7 +76,12 @@ Step(r) ==
       [] r.ev = "Advance"    -> Advance(r.a.d)
       [] r.ev = "Refresh"    -> RefreshTick(Oracle(r), {}, {})
       [] r.ev = "LastState"  -> RecvLastState(r.a.p, [b |-> r.a.b, ok |-> r.a.ok], Oracle(r))
-      [] r.ev = "Proof"      -> RecvProof(r.a.p, MsgOf(r.a), Oracle(r))
+      [] r.ev = "Proof"      -> /\ RecvProof(r.a.p, MsgOf(r.a), Oracle(r))
+                                \* an honest answer fails the total difficulty check only through the known gap
+                                /\ (r.a.kind = "honest" /\ peer[r.a.p].st # "None" /\ HasReq(peer[r.a.p]) /\ MsgOf(r.a).last = peer[r.a.p].req.last
+                                    /\ MsgOf(r.a).td = "world" /\ TdApplies(peer[r.a.p], MsgOf(r.a)) /\ ~TdOf(peer[r.a.p], MsgOf(r.a)))
+                                      => /\ "KF-C14-envelope" \in cfg.allow /\ TdKnownGap(peer[r.a.p], MsgOf(r.a))
+                                         /\ PrintT(<<"KNOWN-FINDING", "KF-C14-envelope", r.a.p, r.a.last>>)
       [] r.ev = "Restart"    -> Restart
       [] r.ev = "Quiescent"  -> QuiescentOk(r.a)
       [] r.ev = "Panic"      -> \* the only deliberate abort: a valid second proof (from genesis) confirms a long fork
